@@ -53,6 +53,10 @@ class Factorial(Part):
                     for after in (False, True):
                         cases.append({"kind": "fullfact", "d": d, "center": center, "levels": None, "after_bb": after,
                                       "cseed": rng.randrange(1 << 30)})
+                    # a zooming sweep: the generator object is kept, the bounds of its parameters are narrowed, the next design is the
+                    # full factorial of the levels given NOW
+                    cases.append({"kind": "fullfact", "d": d, "center": center, "levels": None, "after_bb": False, "zoom": True,
+                                  "cseed": rng.randrange(1 << 30)})
         seen = set()
         for _ in range(60 if ctx.quick else 600):
             d = rng.randint(1, 5)
@@ -149,6 +153,11 @@ class Factorial(Part):
             if case["levels"] is None:
                 g = ops.FullFactorGenerator(params)
                 g.init(case["center"])
+                if case.get("zoom"):
+                    observe(g.generate)
+                    for p in params:
+                        lb, ub = p['bounds']
+                        p['bounds'] = [lb + (ub - lb) * 0.25, ub - (ub - lb) * 0.125]
                 lists = [[p['bounds'][0], (p['bounds'][0] + p['bounds'][1]) / 2.0, p['bounds'][1]] if case["center"] else list(p['bounds'])
                          for p in lists_from]
             else:
